@@ -18,12 +18,14 @@ import numpy as np
 
 import discretisedfield as df
 from mc import common as C
+from mc import engine
 
 PROPERTY = "C01"
 RULE = ("units lattice1d / lattice2d / lattice3d / lattice4d: full product of the axis alphabets (offset x width x "
         "count x scale x corner order [x names]); inside one execution ALL cell indices and the complete per-axis "
         "probe list are evaluated. units bycell1d / bycell2d: full product lattice x requested count k x variant. "
-        "unit history: full product ndim x geometry x described-before x step1 x form1 x step2 (or none) x form2 over "
+        "unit aliasing: ndim x container type of the constructor arguments x which of the caller's / the returned arrays is "
+        "modified in place afterwards; unit history: full product ndim x geometry x described-before x step1 x form1 x step2 (or none) x form2 over "
         "translate / scale / quarter-turn steps, the whole description re-checked after every step. "
         "An execution is non-trivial when at least one oracle comparison ran.")
 ASSUMPTIONS = [
@@ -449,12 +451,15 @@ def unit_bycell1d(ctx):
     scale = ctx.choose("scale", SCALES)
     k = ctx.choose("k", list(range(1, count + 3)))
     # oversize cells are multiples of the whole edge: offered once per lattice (k = 1)
-    variant = ctx.choose("variant", [v for v in VARIANTS if v != "mesh.cell" and (k == 1 or not v.startswith("oversize"))])
+    # "nominal": the cell size the lattice was built FROM (width*scale), offered for the true count only: the edge is
+    # that many cells up to the rounding of the corner arithmetic, which scales with the coordinates, not the edge
+    variant = ctx.choose("variant", [v for v in VARIANTS if v != "mesh.cell" and (k == 1 or not v.startswith("oversize"))]
+                         + (["nominal"] if k == count else []))
     form = ctx.choose("form", ["scalar", "tuple"])
     lo, hi = _axis(offset, width, count, scale)
     region = df.Region(p1=(lo,), p2=(hi,))
     edge = float(region.edges[0])
-    cell, must_exist = _cell_for(variant, edge, k)
+    cell, must_exist = (width * scale, True) if variant == "nominal" else _cell_for(variant, edge, k)
     arg = cell if form == "scalar" else (cell,)
     ctx.step(1, f"Mesh(region, cell={arg!r})")
     raised, r = C.raises(lambda: df.Mesh(region=region, cell=arg))
@@ -470,7 +475,7 @@ def unit_bycell1d(ctx):
             ctx.fail("Mesh(cell=)/wrong-count", f"edge {edge!r} cell {cell!r}: n={r.n} expected {k}", instance=inst)
             return
         ctx.check()
-        if abs(Fr(float(r.cell[0])) - Fr(edge) / k) > 4 * Fr(C.ulp(cell)):
+        if abs(Fr(float(r.cell[0])) - Fr(edge) / k) > 4 * Fr(C.ulp(cell)) + (8 * Fr(C.ulp(max(abs(lo), abs(hi)))) if variant == "nominal" else 0):
             ctx.fail("Mesh(cell=)/cell-not-edges-over-n", f"cell={r.cell[0]!r}", instance=inst)
         # the mesh obtained by cell size is the same lattice as the one obtained by count
         ctx.step(1)
@@ -531,6 +536,82 @@ def unit_bycell2d(ctx):
                  f"edges {edges}, cell {cell} gave n={r.n}", instance=inst)
     else:
         ctx.note("Mesh(cell=):refused")
+
+# --------------------------------------------------------------------------------------------------------------------
+def unit_aliasing(ctx):
+    """What the caller does with ITS OWN arrays afterwards must not reach the mesh: the corner / count arrays handed to
+    the constructors are modified in place after construction, and every array the mesh hands out as a DERIVED
+    description (cell, edges, centre, per-axis centres and vertices, coordinate field, index2point) is modified in
+    place by the caller; the mesh - and a second mesh built afterwards on the same extent - must still describe the
+    lattice it was asked for."""
+    ndim = ctx.choose("ndim", [1, 2, 3])
+    axes = [RAXES[1], RAXES[2], RAXES[4]][:ndim]
+    container = ctx.choose("given-as", ["float64-ndarray+int64-ndarray", "list", "tuple", "int32-ndarray-n"])
+    lo, hi, n = [], [], []
+    for (o, w, c, rs) in axes:
+        a, b = _axis(o, w, c, rs)
+        lo.append(a)
+        hi.append(b)
+        n.append(c)
+    dims = C.DIMSETS[ndim][0]
+    if container.startswith("float64"):
+        a1, a2, an = np.array(lo), np.array(hi), np.array(n, dtype=np.int64)
+    elif container == "list":
+        a1, a2, an = list(lo), list(hi), list(n)
+    elif container == "tuple":
+        a1, a2, an = tuple(lo), tuple(hi), tuple(n)
+    else:
+        a1, a2, an = np.array(lo), np.array(hi), np.array(n, dtype=np.int32)
+    what = ctx.choose("caller-modifies", ["its-input-arrays", "returned-cells", "returned-vertices", "returned-coordinate-field",
+                                          "returned-cell-edges-centre", "returned-index2point"])
+    ctx.step(1, "Mesh(...)")
+    mesh = df.Mesh(region=df.Region(p1=a1, p2=a2, dims=dims), n=an)
+    inst = ctx.key()
+    corners = (np.array(lo), np.array(hi))
+
+    def describe(m, tag):
+        before = len(ctx.violations)
+        check_mesh(ctx, m, corners, tuple(n), dims, inst + f";at={tag}")
+        return len(ctx.violations) == before
+
+    def scribble(arr):
+        try:
+            arr = np.asarray(arr)
+            if arr.flags.writeable:
+                arr[...] = arr * 3 + 7
+        except (ValueError, TypeError):
+            pass  # read-only results are fine
+
+    if what == "its-input-arrays":
+        if isinstance(an, np.ndarray):
+            an *= 2
+            a1 += 1.0
+            a2 -= 0.5
+        elif isinstance(an, list):
+            an[0] += 3
+            a1[0] += 1.0
+        else:
+            raise engine.Skip()
+    elif what == "returned-cells":
+        for d in dims:
+            scribble(getattr(mesh.cells, d))
+    elif what == "returned-vertices":
+        for d in dims:
+            scribble(getattr(mesh.vertices, d))
+    elif what == "returned-coordinate-field":
+        scribble(mesh.coordinate_field().array)
+    elif what == "returned-cell-edges-centre":
+        scribble(mesh.cell)
+        scribble(mesh.region.edges)
+        scribble(mesh.region.center)
+    else:
+        p = mesh.index2point(tuple(0 for _ in n))
+        scribble(p)
+    if not describe(mesh, "after-the-caller-modified-" + what):
+        return
+    ctx.step(1, "second mesh on the same extent")
+    describe(df.Mesh(region=df.Region(p1=lo, p2=hi, dims=dims), n=n), "second-mesh-after-" + what)
+
 
 # --------------------------------------------------------------------------------------------------------------------
 def unit_history(ctx):
@@ -612,4 +693,5 @@ def units(tier):
         {"name": "bycell1d", "fn": unit_bycell1d, "bound": None},
         {"name": "bycell2d", "fn": unit_bycell2d, "bound": None},
         {"name": "history", "fn": unit_history, "bound": None},
+        {"name": "aliasing", "fn": unit_aliasing, "bound": None},
     ]
